@@ -273,8 +273,9 @@ CHECKS["C20"] = dict(
          "along every pair) the level computation is total - it runs out of neither ready fields nor fuel (Rand/OrderTotal.v); transitively ordered fields are separated as well and "
          "a cyclic declaration never yields groups; "
          "for the first-solved field a drawn pattern equal to a feasible value is kept and pins "
-         "that value (so with feasible = inferred range its distribution is that of the draw, whatever accompanies it). Tie: six "
-         "templates randomised 360/2400 times: normal return, swizzle order in the solver transcript, histograms of the "
+         "that value (so with feasible = inferred range its distribution is that of the draw, whatever accompanies it). Tie: the "
+         "model's rand_order evaluated in Coq on the recorded dependency map and fields of every rand set against the code's "
+         "rand_order_l; thirteen templates randomised 360/2400 times: normal return, swizzle order in the solver transcript, histograms of the "
          "first-solved fields against the uniform distribution (6.1 sigma), and the C01/C02 oracle on the first calls."
          " A ninth template holds two alternative ordering blocks of which one is switched off.",
     note=SOLVER_NOTE + "Uniformity of CPython's generator and Boolector's choice for infeasible patterns are runtime behaviours "
